@@ -123,6 +123,29 @@ def draw_cfg(rng, profile=None):
         run['n_eff'] = rng.choice([0, 20])
         run['f_live'] = rng.choice([0.05, 0.1, 0.2])
 
+    if lik['family'] == 'lattice' or rng.random() < profile.get(
+            'p_many_ellipsoids', 0.0):
+        # many modes, small minimum cluster size, eager splitting: bounds
+        # whose outer union has a dozen or more ellipsoids
+        if lik['family'] != 'lattice':
+            lik.update(workload.draw_lik_spec(
+                rng, 2, family='lattice', blob=lik['blob'],
+                prior=lik['prior'], vectorized=lik['vectorized']))
+            n_dim = 2
+        sampler['n_live'] = rng.choice([80, 100, 120])
+        sampler['n_batch'] = 50
+        sampler['n_points_min'] = lik['n_dim'] + 1
+        sampler['split_threshold'] = rng.choice([0.3, 1])
+        sampler['n_networks'] = 0
+        sampler['n_update'] = None
+        sampler['enlarge_per_dim'] = 1.1
+        if sampler['periodic'] is not None:
+            sampler['periodic'] = [q for q in sampler['periodic']
+                                   if q < lik['n_dim']] or None
+        run['f_live'] = rng.choice([0.2, 0.3])
+        run['n_eff'] = rng.choice([500, 1000])
+        run['n_shell'] = 1
+
     def pool_spec(p):
         if rng.random() >= p:
             return None
@@ -299,6 +322,11 @@ class World:
             world.batches_done += 1
             if not s.explored:
                 world.nb_before_end = len(s.bounds)
+                ob = getattr(s.bounds[-1], 'outer_bound', None)
+                if ob is not None:
+                    world.probes['max_ellipsoids_in_a_bound'] = max(
+                        world.probes.get('max_ellipsoids_in_a_bound', 0),
+                        len(ob.bounds))
             world.timeline.append(world.signature())
             world.event('add_samples', shell=int(shell))
             world.notify('post_add_samples', shell=shell)
@@ -823,7 +851,9 @@ def draw_history(rng, cfg, timeline, profile=None, twin_probes=None):
                 ACCESSORS, rng.randrange(1, len(ACCESSORS)))])
         if rng.random() < 0.15:
             ops.append(['stall', 0, rng.choice([1.0, 60.0, 3600.0])])
-    if (twin_probes or {}).get('empty_shells_removed') and ckpt and \
+    tp = twin_probes or {}
+    if (tp.get('empty_shells_removed') or
+            tp.get('max_ellipsoids_in_a_bound', 0) >= 11) and ckpt and \
             endexp and rng.random() < 0.8:
         # shells were renumbered when exploration ended: make sure the
         # object is thrown away and rebuilt from the file after that point
